@@ -221,7 +221,7 @@ func Run(r *core.Run) {
 		g := grammars[i]
 		var local []gramCase
 		tlcrun.MustHold(r, tlcrun.Options{
-			Module: "JsGrammar", Config: fmt.Sprintf("JsGrammar.%s.%s.cfg", g, tier), Workers: 2, TimeoutSec: r.Pick(600, 2400), HeapGB: 4,
+			Module: "JsGrammar", Config: fmt.Sprintf("JsGrammar.%s.%s.cfg", g, tier), Workers: 2, TimeoutSec: r.Pick(1800, 3600), HeapGB: 4,
 			OnCase: func(raw []byte) {
 				var c gramCase
 				if err := json.Unmarshal(raw, &c); err != nil {
